@@ -1,5 +1,6 @@
 (* C14 (average-link part): proofs about ModelAL.fusion. *)
 From Coq Require Import List Bool ZArith QArith Arith Lia Lqa.
+From NV.Generated Require Import ClusteringFrags.
 From NV.C14 Require Import ModelAL.
 Import ListNotations.
 
@@ -235,7 +236,7 @@ Lemma average_link_lance_williams : forall A (sim : A -> A -> Q) (I J C : list A
   + fus_fj (Z.of_nat (length I)) (Z.of_nat (length I + length J)) * mean_sim sim J C
   == mean_sim sim (I ++ J) C.
 Proof.
-  intros A sim I J C HI HJ HC. unfold fus_fj, fus_fi, mean_sim.
+  intros A sim I J C HI HJ HC. unfold fus_fj, fus_fi, src_fusion_fj, src_fusion_fi, mean_sim.
   rewrite total_sim_app, Qlen_app.
   rewrite Nat2Z.inj_add.
   assert (E0 : inject_Z (Z.of_nat (length I) + Z.of_nat (length J)) == Qlen I + Qlen J) by (unfold Qlen; rewrite inject_Z_plus; reflexivity).
@@ -251,7 +252,7 @@ Lemma fusion_weight_between : forall pi pj wi wj, (0 < pi)%Z -> (0 < pj)%Z -> wi
   wi <= fus_fi pi (pi + pj) * wi + fus_fj pi (pi + pj) * wj <= wj /\
   wi <= fus_fi pi (pi + pj) * wj + fus_fj pi (pi + pj) * wi <= wj.
 Proof.
-  intros pi pj wi wj Hi Hj Hw. unfold fus_fj, fus_fi. rewrite inject_Z_plus.
+  intros pi pj wi wj Hi Hj Hw. unfold fus_fj, fus_fi, src_fusion_fj, src_fusion_fi. rewrite inject_Z_plus.
   assert (PI : 0 < inject_Z pi) by (change 0 with (inject_Z 0); now rewrite <- Zlt_Qlt).
   assert (PJ : 0 < inject_Z pj) by (change 0 with (inject_Z 0); now rewrite <- Zlt_Qlt).
   set (x := inject_Z pi) in *. set (y := inject_Z pj) in *.
